@@ -27,9 +27,9 @@ def run(ctx):
     ctx.rule_text = 'one obligation per exponentiation site, per store into the returned container, per oracle entry'
     ctx.trusted = ['scipy.special.logsumexp / Factor.logsumexp compute log-sum-exp',
                    'exp(b - logsumexp(b) + log T) sums to T (algebra)']
-    gbp = repo.func(RG, 'RegionGraph.generalized_belief_propagation')
-    lbp = repo.func(FG, 'FactorGraph.loopy_belief_propagation')
-    cm = repo.func(FG, 'FactorGraph.clique_marginals')
+    gbp = repo.nfunc(RG, 'RegionGraph.generalized_belief_propagation')
+    lbp = repo.nfunc(FG, 'FactorGraph.loopy_belief_propagation')
+    cm = repo.nfunc(FG, 'FactorGraph.clique_marginals')
     n_ret = 0
     for fi in (gbp, cm):
         an, n = LR.L1(ctx, fi)
@@ -86,7 +86,7 @@ def binding_iter(name_node):
 def check_identity_compares(ctx):
     n = 0
     for rel, cname in ((FG, 'FactorGraph'), (RG, 'RegionGraph')):
-        for name, fi in ctx.repo.methods(rel, cname).items():
+        for name, fi in ctx.repo.nmethods(rel, cname).items():
             for c in ast.walk(fi.node):
                 if isinstance(c, ast.Compare) and len(c.ops) == 1 and isinstance(c.ops[0], (ast.Is, ast.IsNot)) and \
                         isinstance(c.left, ast.Name) and isinstance(c.comparators[0], ast.Name):
